@@ -458,6 +458,10 @@ func c01Case(c *core.Ctx, p *dyn.PairOps, sh c01shape, r *core.Rand, caseID stri
 			}
 		}
 		var sp []mon.Problem
+		if msg := rowHeadersChanged(ss, lens); msg != "" {
+			c.Violate("WriteStriped"+pairName+"|caller-rows", caseID, msg, d)
+			continue
+		}
 		for ci := range lens {
 			for i := 0; i < lens[ci]; i++ {
 				if !ss.At(ci).Get(i).Same(want[ci][i]) {
@@ -503,6 +507,10 @@ func c01Case(c *core.Ctx, p *dyn.PairOps, sh c01shape, r *core.Rand, caseID stri
 			continue
 		}
 		var sp []mon.Problem
+		if msg := rowHeadersChanged(ss, lens); msg != "" {
+			c.Violate("ReadStriped"+pairName+"|caller-rows", caseID, msg, d)
+			continue
+		}
 		for ci := range lens {
 			nread := min(max(lens[ci], 0), length)
 			for i := 0; i < lens[ci]; i++ {
@@ -708,4 +716,17 @@ func c01Common(c *core.Ctx, inst, caseID string, d map[string]any, a *mon.Arena,
 	}
 	c.Obs("arena_cells_verified", int64(len(a.Shadow)))
 	report(c, inst, caseID, callerProblems, d)
+}
+
+// rowHeadersChanged reports a per-channel slice of the caller whose length or
+// nil-ness is no longer what the caller passed in (the rows are elements of
+// the caller's outer slice and have to stay untouched).
+func rowHeadersChanged(ss dyn.SS, lens []int) string {
+	for ci, l := range lens {
+		row := ss.At(ci)
+		if row.Len() != max(l, 0) || row.IsNil() != (l < 0) {
+			return fmt.Sprintf("the caller's per-channel slice %d had length %d (nil=%v) before the call and has length %d (nil=%v) after it", ci, max(l, 0), l < 0, row.Len(), row.IsNil())
+		}
+	}
+	return ""
 }
